@@ -22,7 +22,7 @@ func init() {
 		Rule: "two case classes. (server) a man-in-the-middle raw peer sends 'tag STARTTLS CRLF' followed by a plaintext suffix of 0..3 commands carrying poison markers, split across 1..4 network writes at seeded positions and under seeded segmentation, then runs a real crypto/tls client handshake; configurations {TLS configured or not} x {InsecureAuth}; optionally a plaintext LOGIN/AUTHENTICATE before and a second STARTTLS after the upgrade. (client) imapclient.NewStartTLS against a scripted server whose STARTTLS OK is followed, in the same or later writes, by injected plaintext responses (fake CAPABILITY, EXISTS, tagged OK for the next tags), then a real crypto/tls server handshake; greetings OK / PREAUTH / BYE. " +
 			"Non-trivial: the STARTTLS exchange was reached. Distinct: distinct event-log hashes.",
 		Components:   "real: imapserver.Conn (handleStartTLS, capability advertisement, login gating), imapclient.Client (NewStartTLS, upgradeStartTLS) (woven), crypto/tls (un-woven); stub: MITM raw peer / scripted server, recording Session, network, clock, scheduler",
-		Assumptions:  []string{"the caller never races the client's own TLS handshake (crypto/tls guards it with a real mutex that the simulator cannot schedule): it waits until the peer's handshake has finished before its first post-upgrade command", "a failed handshake is an acceptable outcome of injected plaintext"},
+		Assumptions:  []string{"the client's lazy TLS handshake is serialised by a simulated mutex (simrt.TLSClient) instead of crypto/tls's own real mutex; in half of the runs the caller issues its first post-upgrade command as soon as NewStartTLS returns", "a failed handshake is an acceptable outcome of injected plaintext"},
 		QuickRuns:    3000,
 		ThoroughRuns: 80000,
 		Run:          runC17,
@@ -247,7 +247,11 @@ func c17Client(r *R) {
 	// capability data sent in plaintext between the STARTTLS command and its OK: legitimate responses at that
 	// point, but what they say must not outlive the upgrade (RFC 9051 6.2.1: the client MUST discard cached
 	// capability information once TLS has started)
-	preCaps := t.Choose(3) == 0
+	// 1 run in 2 the caller uses the client as soon as NewStartTLS has returned, while the reader goroutine may still be
+	// switching to TLS (the handshake itself is serialised by simrt.TLSClient)
+	eager := t.Choose(2) == 0
+	preCapsMode := t.Choose(4) // 0: untagged CAPABILITY before the OK; 1: CAPABILITY response code on the STARTTLS OK itself; else none
+	preCaps := preCapsMode == 0
 	cfg := r.SchedConfig()
 	var newErr error
 	var caps imap.CapSet
@@ -257,6 +261,7 @@ func c17Client(r *R) {
 	reached := false
 	injectedSeen := ""
 	var tlsCmds []string
+	var cliWritten []byte
 	r.Tracef("client half: greeting=%d inject=%q sameWrite=%v", greeting, inject, sameWrite)
 	r.Sim(cfg, func() {
 		srvTLS, cliTLS := testTLS()
@@ -313,6 +318,9 @@ func c17Client(r *R) {
 					srv.send("* CAPABILITY IMAP4rev1 STARTTLS X-PLAINTEXT AUTH=PLAIN")
 				}
 				line := []byte(c.Tag + " OK begin TLS now\r\n")
+				if preCapsMode == 1 {
+					line = []byte(c.Tag + " OK [CAPABILITY IMAP4rev1 X-PLAINTEXT AUTH=PLAIN] begin TLS now\r\n")
+				}
 				if sameWrite {
 					srv.sendRaw(append(line, inject...))
 				} else {
@@ -365,8 +373,9 @@ func c17Client(r *R) {
 				return
 			}
 			gotClient = true
-			// do not race the client's own handshake (see Assumptions)
-			simrt.Recv(hsDone)
+			if !eager {
+				simrt.Recv(hsDone)
+			}
 			state = c.State()
 			caps = c.Caps()
 			if state == imap.ConnStateNotAuthenticated {
@@ -379,12 +388,22 @@ func c17Client(r *R) {
 		waitOrTimeout(done, 24*time.Hour)
 		cc.Close()
 		waitOrTimeout(srvDone, time.Hour)
+		cliWritten = append([]byte{}, cc.Written()...)
 	})
 	if r.Res.Infra != "" {
 		return
 	}
 	r.Nontrivial = reached
 	r.CheckLiveness(true)
+	// the client's own side of the boundary: after its STARTTLS command line it sends TLS records only
+	if w := cliWritten; len(w) > 0 {
+		if i := bytes.Index(w, []byte("STARTTLS\r\n")); i >= 0 && reached {
+			rest := w[i+len("STARTTLS\r\n"):]
+			if len(rest) > 0 && rest[0] != 0x16 {
+				r.Violate("client-plaintext-after-starttls", "", "after its STARTTLS command the client wrote cleartext on the raw connection instead of a TLS handshake record: %q", clipStr(string(rest), 120))
+			}
+		}
+	}
 	switch greeting {
 	case 4:
 		if newErr == nil {
@@ -408,7 +427,7 @@ func c17Client(r *R) {
 		r.Violate("injected-plaintext-interpreted", "CAPABILITY", "after the upgrade the client reports capabilities %v: X-INJECTED was only ever sent in plaintext after the STARTTLS OK line", capList(caps))
 	}
 	if caps.Has("X-PLAINTEXT") {
-		r.Violate("plaintext-capabilities-survive-upgrade", "", "after the upgrade the client reports capabilities %v: X-PLAINTEXT was only ever sent in plaintext, before the STARTTLS OK; capability information from before TLS must be discarded", capList(caps))
+		r.Violate("plaintext-capabilities-survive-upgrade", "", "after the upgrade the client reports capabilities %v: X-PLAINTEXT was only ever sent in plaintext, before or on the STARTTLS OK line; capability information from before TLS must be discarded", capList(caps))
 	}
 	if state == imap.ConnStateAuthenticated || state == imap.ConnStateSelected {
 		r.Violate("injected-plaintext-interpreted", "state", "after the upgrade the client reports state %v (the TLS side never authenticated it)", state)
